@@ -281,7 +281,7 @@ for _name, _d, _alt in _ITMD:
             def _(w):
                 from adcgen import Intermediates
                 sym = Intermediates().available[name].tensor_symmetry
-                return sorted((str(k), v) for k, v in sym.items())
+                return [(str(k), v) for k, v in sym.items()]
 
         @tmpl(f"itmd.{name}.allowed_spin_blocks", "itmd", None, cost=2,
               tier="t" if name in ("t4_2", "t2_3", "t3_2") else "q")
@@ -426,21 +426,21 @@ def _(w):
 @tmpl("expr.term_symmetry(sym3)", "expr", None)
 def _(w):
     e = imp(w, "sym3", targets="ia")
-    return sorted((str(k), v) for k, v in e.terms[0].symmetry().items())
+    return [(str(k), v) for k, v in e.terms[0].symmetry().items()]
 
 
 @tmpl("expr.term_symmetry(sym3,only_contracted)", "expr", None)
 def _(w):
     e = imp(w, "sym3", targets="ia")
-    return sorted((str(k), v) for k, v in w.call(e.terms[0], "symmetry", True, False).items())
+    return [(str(k), v) for k, v in w.call(e.terms[0], "symmetry", True, False).items()]
 
 
 @tmpl("expr.term_symmetry(sym3,only_target)", "expr", None)
 def _(w):
     e = imp(w, "sym3", targets="ia")
     t = e.terms[0]
-    a = sorted((str(k), v) for k, v in w.call(t, "symmetry", False, True).items())
-    b = sorted((str(k), v) for k, v in w.call(t, "symmetry", True, False).items())
+    a = [(str(k), v) for k, v in w.call(t, "symmetry", False, True).items()]
+    b = [(str(k), v) for k, v in w.call(t, "symmetry", True, False).items()]
     return [a, b]
 
 
@@ -726,7 +726,7 @@ def _(w):
 @tmpl("expr.term_symmetry(perm_sym)", "expr", None)
 def _(w):
     e = imp(w, "perm_sym", targets="ijab")
-    return [sorted((str(k), v) for k, v in w.call(t, "symmetry").items()) for t in e.terms]
+    return [[(str(k), v) for k, v in w.call(t, "symmetry").items()] for t in e.terms]
 
 
 for _backend in ("einsum", "libtensor"):
